@@ -2,7 +2,7 @@
    by `exact <lemma>`, and Print Assumptions.  Model: Model/Abandon.v (interleaving semantics, one
    transition per atomic access).  This is the property file of C09 (there is no Properties/C09.v). *)
 From Coq Require Import NArith ZArith List Bool.
-From MiV Require Import Gen.Consts Model.Abandon Proofs.AbandonProofs Proofs.AbandonTrace Proofs.AbandonCount Proofs.AbandonOpen.
+From MiV Require Import Gen.Consts Model.Abandon Proofs.AbandonProofs Proofs.AbandonTrace Proofs.AbandonCount Proofs.AbandonCollect.
 Import ListNotations.
 Local Open Scope N_scope.
 
@@ -105,8 +105,65 @@ Theorem C09_abandoned_count_quiescent : forall st0 st sps,
 Proof. exact abandoned_count_quiescent. Qed.
 Print Assumptions C09_abandoned_count_quiescent.
 
-(* never leaked: stated, not proved (Proofs/AbandonOpen.v); exercised by the example below and the simulator *)
-Definition C09_full_collect_frees_dead_abandoned : Prop := collect_frees_dead_abandoned_stmt.
+(* never leaked ("once the last block in it has been freed the memory is released instead of leaked"), Proofs/AbandonCollect.v.
+   From a quiescent state of the invariant a forced collect (_mi_abandoned_collect(heap, force = true): the cursor over every
+   arena segment, then as many visits of the abandoned OS list as the list is long, then _mi_arena_field_cursor_done) run solo
+   by a live thread t leaves no abandoned segment of t's sub-process without live blocks; the state is quiescent again and the
+   invariant holds.  (This is the statement that was kept open as C09_full_collect_frees_dead_abandoned.) *)
+Theorem C09_collect_frees_dead_abandoned :
+  forall st t th n_os fuel,
+    Inv st -> quiescent st = true -> nth_error (threads st) t = Some th ->
+    t_prog th = collect_prog (length (segs st)) n_os -> (length (os_list st) <= n_os)%nat ->
+    (16 * (length (segs st) + n_os + 1) <= fuel)%nat ->
+    let st' := run_solo fuel st t in
+    no_dead_abandoned_b st' (t_subproc th) = true /\ quiescent st' = true /\ Inv st'.
+Proof. exact collect_frees_dead_abandoned. Qed.
+Print Assumptions C09_collect_frees_dead_abandoned.
+
+(* the same for the cursor as the code runs it: the arena segments in any order that covers them (the cursor starts at a random
+   arena and wraps), with or without the acquisition of the visit lock that visits no entry (OVisitLock), and
+   os_list_count = subproc->abandoned_os_list_count = the entries of t's own sub-process (os_count) instead of the length of
+   the combined list.  collect_post: no dead abandoned segment of the sub-process is left, quiescent, Inv, t is done, every
+   segment keeps its live blocks, only segments without live blocks are freed, the others keep their thread_id, and every
+   abandoned segment of the sub-process without live blocks IS freed *)
+Theorem C09_collect_frees_dead_abandoned_gen : forall st t th order vl n_os fuel,
+  Inv st -> quiescent st = true -> thr_at st t th ->
+  t_prog th = collect_prog_of order vl n_os ->
+  (forall i, (i < length (segs st))%nat -> In i order) ->
+  (os_count st (t_subproc th) <= n_os)%nat ->
+  (8 * length order + 11 * n_os + 2 <= fuel)%nat ->
+  let st' := run_solo fuel st t in
+  no_dead_abandoned_b st' (t_subproc th) = true /\ quiescent st' = true /\ Inv st' /\
+  thr_at st' t (mkT (t_subproc th) [] Idle false) /\
+  (forall i g, seg_at st i g -> exists g', seg_at st' i g' /\
+     g_arena g' = g_arena g /\ g_subproc g' = g_subproc g /\ g_live g' = g_live g /\
+     (g_freed g' = false -> g_freed g = false /\ g_tid g' = g_tid g) /\
+     (g_freed g' = true -> g_freed g = true \/ g_live g = 0)) /\
+  (forall i g, seg_at st i g -> g_subproc g = t_subproc th -> g_tid g = 0 -> g_freed g = false -> g_live g = 0 ->
+     exists g', seg_at st' i g' /\ g_freed g' = true).
+Proof. exact collect_solo_gen. Qed.
+Print Assumptions C09_collect_frees_dead_abandoned_gen.
+
+(* not solo: in every reachable quiescent state an abandoned segment (thread_id = 0, not freed) is still marked -- its bit of
+   blocks_abandoned is set / it is in the abandoned OS list -- and in nobody's hand: no segment is ever orphaned, the cursor
+   of the next collect of its sub-process finds it ... *)
+Theorem C09_no_orphan_quiescent : forall st0 st i g,
+  Inv st0 -> reachable st0 st -> quiescent st = true -> seg_at st i g -> g_freed g = false -> g_tid g = 0 ->
+  marked st i = true /\ (forall t, ~ in_hand st i t).
+Proof. exact no_orphan_quiescent. Qed.
+Print Assumptions C09_no_orphan_quiescent.
+
+(* ... and when its last block has been freed, the next forced collect of any live thread of its sub-process releases it *)
+Theorem C09_dead_abandoned_released : forall st0 st t th order vl n_os fuel i g,
+  Inv st0 -> reachable st0 st -> quiescent st = true ->
+  thr_at st t th -> t_prog th = collect_prog_of order vl n_os ->
+  (forall j, (j < length (segs st))%nat -> In j order) -> (os_count st (t_subproc th) <= n_os)%nat ->
+  (8 * length order + 11 * n_os + 2 <= fuel)%nat ->
+  seg_at st i g -> g_subproc g = t_subproc th -> g_tid g = 0 -> g_freed g = false -> g_live g = 0 ->
+  let st' := run_solo fuel st t in
+  reachable st0 st' /\ quiescent st' = true /\ exists g', seg_at st' i g' /\ g_freed g' = true.
+Proof. exact dead_abandoned_released. Qed.
+Print Assumptions C09_dead_abandoned_released.
 
 (* ---- non-vacuity ---- *)
 Example C09_example_init : inv_b ex_st0 = true.
@@ -146,3 +203,28 @@ Example C09_example_forced_collect :
   inv_b st = true /\ quiescent st = true /\ finished st = true /\ no_dead_abandoned_b st 1 = true /\
   map g_freed (segs st) = [true; true; false; false; false] /\ os_list st = [4%nat] /\ count_ok_b st [1; 2] = true.
 Proof. exact ex_collect. Qed.
+
+(* two sub-processes whose entries interleave in the abandoned OS list, arena and OS segments, dead / live / owned; the cursor
+   of thread 0 starts at segment 3, wraps, takes the visit lock, os_list_count = 2 = its own entries; then thread 1 collects *)
+Example C09_example_forced_collect_two_subprocs :
+  inv_b ex_quiet2 = true /\ quiescent ex_quiet2 = true /\ count_ok_b ex_quiet2 [1; 2] = true /\
+  os_count ex_quiet2 1 = 2%nat /\ os_count ex_quiet2 2 = 1%nat /\
+  no_dead_abandoned_b ex_quiet2 1 = false /\ no_dead_abandoned_b ex_quiet2 2 = false /\
+  let st := run_solo (8 * 7 + 11 * 2 + 2) ex_quiet2 0 in
+  inv_b st = true /\ quiescent st = true /\ no_dead_abandoned_b st 1 = true /\ no_dead_abandoned_b st 2 = false /\
+  map g_freed (segs st) = [true; true; false; false; false; false; false] /\ os_list st = [5; 4]%nat /\
+  map g_live (segs st) = map g_live (segs ex_quiet2) /\ count_ok_b st [1; 2] = true /\
+  let st2 := run_solo (16 * (7 + 1 + 1)) st 1 in
+  inv_b st2 = true /\ quiescent st2 = true /\ finished st2 = true /\ no_dead_abandoned_b st2 1 = true /\ no_dead_abandoned_b st2 2 = true /\
+  map g_freed (segs st2) = [true; true; false; true; false; true; false] /\ os_list st2 = [4]%nat /\
+  map (fun g => (g_tid g, g_bit g)) (segs st2) = [(1, false); (1, false); (0, true); (2, false); (0, false); (2, false); (1, false)] /\
+  count_ok_b st2 [1; 2] = true.
+Proof. exact ex_collect2. Qed.
+
+(* the hypotheses of C09_collect_frees_dead_abandoned_gen are satisfiable: thread 0 of that state *)
+Example C09_example_forced_collect_hyps :
+  Inv ex_quiet2 /\ quiescent ex_quiet2 = true /\
+  thr_at ex_quiet2 0 (mkT 1 (collect_prog_of [3; 4; 5; 6; 0; 1; 2]%nat true 2) Idle false) /\
+  (forall j, (j < length (segs ex_quiet2))%nat -> In j [3; 4; 5; 6; 0; 1; 2]%nat) /\
+  (os_count ex_quiet2 1 <= 2)%nat.
+Proof. exact ex_collect2_hyps. Qed.
